@@ -1747,6 +1747,19 @@ func (e *Enc) runDefers(f *frame) {
 
 func (e *Enc) hookChanOp(f *frame, kind string, ch ssa.Value, pos token.Pos) {
 	e.abstract("chan-" + kind)
+	if kind == "send" && f.con != nil && e.dry == 0 {
+		for _, c := range f.con.SendAsserts {
+			env := e.cellEnv(f, pos, e.cur.clone())
+			n := f.nsafety["send"]
+			f.nsafety["send"]++
+			n0 := len(e.obls)
+			e.oblige("pre", fmt.Sprintf("%s/at.send#%d.%s", f.name, n, c.Label), e.evalBool(env, c), pos)
+			if len(e.obls) > n0 {
+				e.obls[n0].Env = env
+				e.obls[n0].ClauseText = c.Text
+			}
+		}
+	}
 }
 
 // expandDefs replaces macro names by their bodies (to the given depth); used
